@@ -48,6 +48,10 @@ def _server_tokens(stmts):
             out.append("call")
         elif isinstance(st, ast.Assign) and len(st.targets) == 1 and _name(st.targets[0]).endswith("._pyroTraceback"):
             out.append("set-traceback")
+        elif isinstance(st, ast.Assign) and isinstance(st.value, ast.Call) and _name(st.value.func).endswith("format_traceback"):
+            out.append("format-traceback")
+        elif isinstance(st, ast.Assign) and isinstance(st.value, ast.Call) and _name(st.value.func).endswith("_serializeException"):
+            out.append("serialize-or-fallback")
         elif isinstance(st, ast.Expr) and isinstance(st.value, ast.Call) and _name(st.value.func) == "data.append":
             a = st.value.args[0]
             if isinstance(a, ast.Call) and _name(a.func).endswith("_ExceptionWrapper"):
